@@ -672,6 +672,8 @@ class MindsDBParser(Parser):
     def describe(self, p):
         if isinstance(p[1], Identifier):
             type = p[1].parts[-1]
+            if not isinstance(type, str):
+                raise ParsingException(f"Unknown object type in DESCRIBE: {str(p[1])}")
         else:
             type = p[1]
         type = type.replace(' ', '_')
